@@ -339,6 +339,8 @@ type gatedSource struct {
 	inNext int32
 	closes int32
 	bad    *int32 // protocol violations by the library: overlapping Next, Next after Close
+	// a Close that takes a while (cfg "slowclose_ms"); the event is logged when Close returns
+	slowClose time.Duration
 }
 
 func (s *gatedSource) Next(ctx context.Context) (int, error) {
@@ -374,6 +376,9 @@ func (s *gatedSource) Close() {
 		atomic.AddInt32(s.bad, 1)
 	}
 	atomic.AddInt32(&s.closes, 1)
+	if s.slowClose > 0 {
+		time.Sleep(s.slowClose)
+	}
 	s.h.add("src-close", s.id)
 }
 
@@ -413,6 +418,9 @@ func runSMerge(c *Case) *Obs {
 		}
 		srcs[i] = &gatedSource{id: i, h: h, items: items, fin: c.Cfg["fins"].([]any)[i].([]any),
 			tokens: make(chan struct{}, 1<<12), kill: kill, bad: &bad}
+		if v, ok := c.Cfg["slowclose_ms"]; ok {
+			srcs[i].slowClose = time.Duration(num(v)) * time.Millisecond
+		}
 		ins[i] = srcs[i]
 	}
 	prog := c.Cfg["prog"].([]any)
